@@ -231,6 +231,12 @@ Proof.
   repeat split; try reflexivity; unfold usvg_parse_precision_ok in *; b2p; lia.
 Qed.
 
+(* Options::resources_dir: an explicit --resources-dir wins, else the directory of the input file, else none (stdin) *)
+Theorem resources_dir_rule : forall explicit file_input,
+  resvg_resources_dir explicit file_input = (if explicit then ResExplicit else if file_input then ResInputDir else ResNone) /\
+  usvg_resources_dir explicit file_input = resvg_resources_dir explicit file_input.
+Proof. intros [|] [|]; split; reflexivity. Qed.
+
 (* ---- process: error => no output --------------------------------------------------------------------- *)
 Lemma steps_write_last : writes_last c20_process_steps = true /\ c20_fallible_after_write = 0.
 Proof. split; vm_compute; reflexivity. Qed.
